@@ -312,6 +312,14 @@ func parseMsgPipelineRcptCfg(globals map[string]interface{}, nodes []config.Node
 			return nil, config.NodeErr(node, "invalid directive")
 		}
 	}
+	if rcpt.rejectErr == nil && len(rcpt.targets) == 0 {
+		// Nothing would happen to recipients handled by this block: they would
+		// be accepted and silently dropped.
+		if len(nodes) != 0 {
+			return nil, config.NodeErr(nodes[0], "destination block should contain at least one 'deliver_to', 'reroute' or 'reject' directive")
+		}
+		return nil, fmt.Errorf("empty destination block, use 'reject' to reject messages")
+	}
 	return &rcpt, nil
 }
 
